@@ -159,7 +159,15 @@ void operands_unchanged(const Step& s, BH& a, BH* b) {
 // dump of its peers.  The client therefore treats the state numbers of all live automata
 // of one encoding as ONE name space (the only discipline under which writing the right
 // operand's rules into the left operand's shared table is harmless).
-std::set<long> observed_states(const BH& h) { TA t; std::string why; if (!read_back(h, t, &why)) return h.model.states(); std::set<long> s = t.states(), m = h.model.states(); s.insert(m.begin(), m.end()); return s; }
+std::set<long> observed_states(const BH& h) {
+	std::set<long> s = h.model.states();
+	VATA::Serialization::TimbukSerializer ser; std::string text = h.is_bu() ? h.bu->DumpToString(ser) : h.td->DumpToString(ser);
+	mdl::Desc d; if (!mdl::parse_timbuk_ref(text, d, nullptr)) return s;
+	TA t; if (mdl::desc_to_ta(d, "", t)) { std::set<long> x = t.states(); s.insert(x.begin(), x.end()); }
+	// states that own an (empty) entry in the table appear only in the States line of the dump
+	for (const std::string& q : d.states) { char* e = nullptr; long v = strtol(q.c_str(), &e, 10); if (!q.empty() && *e == 0) s.insert(v); }
+	return s;
+}
 std::set<long> namespace_states(bool bu, const BH* except) {
 	std::set<long> all;
 	for (auto& c : g_cl) for (auto& h : c.h) if (h.is_bu() == bu && &h != except) { std::set<long> s = observed_states(h); all.insert(s.begin(), s.end()); }
@@ -188,7 +196,9 @@ void op_binary(const Step& s) {
 			std::set<long> sa = namespace_states(false, &c.h[j]), sb = observed_states(c.h[j]); bool dis = true; for (long q : sb) if (sa.count(q)) dis = false;
 			if (!dis && !(c.h[i].origin == c.h[j].origin)) { long off = (sa.empty() ? 0 : *sa.rbegin()) + 1; VATA::AutBase::StateToStateMap sm; VATA::AutBase::StateToStateTranslWeak tr(sm, [off](const StateType& q) { return q + StateType(off); }); shifted.reset(new TD(c.h[j].td->ReindexStates(tr))); rhs = shifted.get(); }
 		}
+		if (getenv("VSIM_DEBUG")) { VATA::Serialization::TimbukSerializer ser; FILE* f = fopen("/tmp/vsim-debug.txt", "a"); fprintf(f, "LHS:\n%s\nRHS(shifted=%d):\n%s\n", c.h[i].td->DumpToString(ser).c_str(), int(bool(shifted)), rhs->DumpToString(ser).c_str()); fclose(f); }
 		TD r = kind == 0 ? (with_maps ? TD::Union(*c.h[i].td, *rhs, &m1, &m2) : TD::Union(*c.h[i].td, *rhs)) : (kind == 1 ? TD::UnionDisjointStates(*c.h[i].td, *rhs) : (with_maps ? TD::Intersection(*c.h[i].td, *rhs, &pm) : TD::Intersection(*c.h[i].td, *rhs)));
+		if (getenv("VSIM_DEBUG")) { VATA::Serialization::TimbukSerializer ser; FILE* f = fopen("/tmp/vsim-debug.txt", "a"); fprintf(f, "RESULT:\n%s\nLHS after:\n%s\n", r.DumpToString(ser).c_str(), c.h[i].td->DumpToString(ser).c_str()); fclose(f); }
 		api_end(); ok = result_model(r, got, site); if (ok) add_td(c, std::move(r), got);
 	}
 	if (!ok) return;
